@@ -664,11 +664,6 @@ func (l Line) webVTTBytes() (c []byte) {
 }
 
 func (li LineItem) webVTTBytes(previous, next *LineItem) (c []byte) {
-	// Add timestamp
-	if li.StartAt > 0 {
-		c = append(c, []byte("<"+formatDurationWebVTT(li.StartAt)+">")...)
-	}
-
 	// Get color
 	var color string
 	if li.InlineStyle != nil && li.InlineStyle.TTMLColor != nil {
@@ -694,6 +689,11 @@ func (li LineItem) webVTTBytes(previous, next *LineItem) (c []byte) {
 	}
 	for idx := alreadyOpened; idx < len(tags); idx++ {
 		c = append(c, []byte(tags[idx].startTag())...)
+	}
+
+	// Add timestamp right before the text it applies to, inside the tags
+	if li.StartAt > 0 {
+		c = append(c, []byte("<"+formatDurationWebVTT(li.StartAt)+">")...)
 	}
 	c = append(c, []byte(escapeHTML(li.Text))...)
 	for idx := len(tags) - 1; idx >= leftOpened; idx-- {
